@@ -167,7 +167,7 @@ def r_normalise(ck: Checker) -> None:
             (isinstance(it_, ast.Call) and isinstance(it_.func, ast.Attribute) and it_.func.attr == "mro" and norm(it_.func.value) == tp0)
         if mro and any(isinstance(c, ast.Call) and isinstance(c.func, ast.Attribute) and c.func.attr == "update" for c in walk_body(lp_.body)):
             ck.violation("R-NORMALISE", f, lp_, "the annotation of a field is the one of the most derived class that declares it (what get_type_hints(cls) gives)",
-                         construct="get_field_types: per-class hints are merged with dict.update while walking __mro__ from the class to its bases: the base's annotation overwrites "
+                         positive=True, construct="get_field_types: per-class hints are merged with dict.update while walking __mro__ from the class to its bases: the base's annotation overwrites "
                          "the subclass's override")
             return
     loops = [st for st in fn.body if isinstance(st, ast.For)]
